@@ -3,7 +3,7 @@ import z3
 
 from ..cxx import model as M
 from ..cxx.contract import Contract, Loop, contract, sanity
-from ..cxx.model import KIND, NULL, PYNONE, ElemRef, NodeVal, Ptr, PyObj, SpecObj
+from ..cxx.model import KIND, NULL, PYNONE, ElemRef, NodeVal, Opaque, Ptr, PyObj, SpecObj
 
 K = KIND
 
@@ -191,3 +191,148 @@ class Child(Contract):
         c = v.cpos(root, j)
         return [('index-was-in-range', self.in_range(cx)),
                 ('child-is-span-of-cpos-index', is_span_copy(cx, ret, v, v.start(c), c + 1))]
+
+
+def node_typed(nv: NodeVal):
+    """Typing facts of one node (a consequence of WF typing for nodes taken from a well-formed traversal)."""
+    k, A = nv.get('kind'), nv.get('arity')
+    return z3.And(k >= 0, k <= 10, A >= 0, z3.Implies(z3.Or(k == K['Leaf'], k == K['None']), A == 0),
+                  (k == K['Custom']) == (nv.get('custom') != NULL),
+                  z3.Implies(nv.get('custom') != NULL, z3.And(M.reg_type(nv.get('custom')) != NULL,
+                                                               M.reg_pet(nv.get('custom')) != NULL)),
+                  z3.Implies(z3.Or(k == K['NamedTuple'], k == K['StructSequence']), nv.get('node_data') != NULL))
+
+
+def effective_node(cx, c):
+    """node.value_or(m_traversal.back())"""
+    v = c.views['this']
+    opt = cx.old('node')
+    back = v.v.node_at(v.v.len - 1)
+    return NodeVal(tuple((f, z3.If(opt.has, opt.node.get(f), back.get(f))) for f in M.NODE_FIELDS))
+
+
+@contract
+class GetOneLevel(Contract):
+    name = 'optree::PyTreeSpec::GetOneLevel'
+    props = ('C08',)
+
+    def __init__(self):
+        self.loops = {0: Loop(self.inv, decreases=lambda cx: cx.var('n').get('arity') - cx.var('i'))}
+
+    def pre(self, cx):
+        return [('node-typed', z3.Implies(cx.var('node').has, node_typed(cx.var('node').node)))]
+
+    def inv(self, cx):
+        out = cx.vec(cx.var('out'))
+        i = cx.var('i')
+        n = effective_node(cx, self)
+        j = z3.Int('j!one')
+        leaf = [out.sel('kind', j) == K['Leaf'], out.sel('arity', j) == 0, out.sel('num_leaves', j) == 1,
+                out.sel('num_nodes', j) == 1, out.sel('node_data', j) == NULL, out.sel('node_entries', j) == NULL,
+                out.sel('custom', j) == NULL, out.sel('original_keys', j) == NULL]
+        return [('i-range', z3.And(0 <= i, i <= n.get('arity'))),
+                ('len-is-i', out.len == i),
+                ('prefix-are-leaves', z3.ForAll([j], z3.Implies(z3.And(0 <= j, j < i), z3.And(*leaf)),
+                                                patterns=[out.sel('kind', j)]))]
+
+    def post(self, cx, ret):
+        n = effective_node(cx, self)
+        A = n.get('arity')
+        spec = cx.st.heap[ret.oid]
+        out = cx.st.heap[spec.trav]
+        this = cx.this_spec(cx.entry)
+        j = z3.Int('j!post')
+        root = out.node_at(A)
+        same_payload = z3.And(*[root.get(f) == n.get(f) for f in ('kind', 'arity', 'node_data', 'node_entries', 'custom',
+                                                                 'original_keys')])
+        return [('arity-plus-one-nodes', out.len == A + 1),
+                ('children-are-leaves', z3.ForAll([j], z3.Implies(z3.And(0 <= j, j < A),
+                                                                  z3.And(out.sel('kind', j) == K['Leaf'],
+                                                                         out.sel('num_nodes', j) == 1,
+                                                                         out.sel('num_leaves', j) == 1,
+                                                                         out.sel('arity', j) == 0)))),
+                ('root-keeps-payload', same_payload),
+                ('root-counts', z3.And(root.get('num_nodes') == A + 1,
+                                       root.get('num_leaves') == z3.If(n.get('kind') == K['Leaf'], 1, A))),
+                ('inherits-flags', z3.And(spec.nil == this.nil, spec.ns == this.ns))]
+
+
+TYPE_OF_KIND = {'None': 'py_NoneType', 'Tuple': 'py_tuple', 'List': 'py_list', 'Dict': 'py_dict',
+                'OrderedDict': 'py_ImportOrderedDict', 'DefaultDict': 'py_ImportDefaultDict', 'Deque': 'py_ImportDeque'}
+
+
+def builtin_type_const(kindname):
+    if kindname == 'None':
+        return M.py_type(PYNONE)
+    return z3.Const(TYPE_OF_KIND[kindname], M.Ref)
+
+
+def spec_type_of(n: NodeVal):
+    k = n.get('kind')
+    e = M.reg_type(n.get('custom'))
+    e = z3.If(k == K['Custom'], e, z3.If(k == K['Leaf'], PYNONE,
+              z3.If(z3.Or(k == K['NamedTuple'], k == K['StructSequence']), n.get('node_data'), NULL)))
+    for kn in TYPE_OF_KIND:
+        e = z3.If(k == K[kn], builtin_type_const(kn), e)
+    return e
+
+
+@contract
+class GetType(Contract):
+    name = 'optree::PyTreeSpec::GetType'
+    props = ('C08', 'C04')
+
+    def pre(self, cx):
+        return [('node-typed', z3.Implies(cx.var('node').has, node_typed(cx.var('node').node)))]
+
+    def post(self, cx, ret):
+        n = effective_node(cx, self)
+        return [('type-of-kind', ret.ref == spec_type_of(n))]
+
+    def apply(self, eng, st, this, args, n):
+        arg = args[0] if args else None
+        if isinstance(arg, (NodeVal, ElemRef)):
+            nv = eng.to_nodeval(st, arg)
+        else:
+            v = st.heap[st.heap[this.oid].trav]
+            nv = v.node_at(v.len - 1)
+        return [(st, PyObj(spec_type_of(nv), stable=True))]
+
+
+ENTRY_CLASS = {'SequenceEntry': ('Tuple', 'List', 'Deque'), 'MappingEntry': ('Dict', 'OrderedDict', 'DefaultDict'),
+               'NamedTupleEntry': ('NamedTuple',), 'StructSequenceEntry': ('StructSequence',)}
+
+
+def path_entry_type_of(n: NodeVal):
+    k = n.get('kind')
+    e = z3.If(k == K['Custom'], M.reg_pet(n.get('custom')), PYNONE)
+    for cls, kinds in ENTRY_CLASS.items():
+        for kn in kinds:
+            e = z3.If(k == K[kn], z3.Const('py_attr_' + cls, M.Ref), e)
+    return e
+
+
+@contract
+class GetPathEntryType(Contract):
+    name = 'optree::PyTreeSpec::GetPathEntryType'
+    props = ('C04',)
+    static = True
+
+    def pre(self, cx):
+        return [('node-typed', node_typed(cx.var('node')))]
+
+    def static_var(self, eng, st, name, d):
+        return Opaque('once-storage')
+
+    def method(self, eng, st, base, name, A, n):
+        return None
+
+    def post(self, cx, ret):
+        return [('entry-class-of-kind', ret.ref == path_entry_type_of(cx.old('node')))]
+
+    def raises(self, cx):
+        return {'pybind11::error_already_set': None}   # first-use import of the accessor class may raise
+
+    def apply(self, eng, st, this, args, n):
+        nv = eng.to_nodeval(st, args[0])
+        return [(st, PyObj(path_entry_type_of(nv), stable=True))]
